@@ -14,7 +14,8 @@
    name) are lists of code points.  sha256(prompt)[:16] is the Section
    variable [H], md5(prompt)[:16] is the Section variable [K]; nothing is
    assumed about them in this file.  datetime.now() is the request's
-   [q_time] (a virtual clock, in whole seconds; constant during one request).
+   [q_time] (a virtual clock; constant during one request carried out in one go -
+   a request that is suspended in an agent returns at the clock value of its [XEnd]).
    The two agents are oracles: [q_exec]/[q_assess] is what executor.express /
    assessor.express does IF it is invoked at that request (it is not invoked
    on a cache hit, and the assessor is not invoked when the executor raised).
@@ -24,7 +25,19 @@
    (get_statistics, get_results_log, get_circuit_breaker_stats).  Time is in whatever unit the
    harness chooses (milliseconds), ttl in the same unit.  A case of the
    correspondence check drives TWO loop objects (each with its own
-   configuration, agents and cache) by one interleaved list of operations. *)
+   configuration, agents and cache) by one interleaved list of operations.
+
+   Overlapping requests (Section Overlap).  run() is not atomic for its caller:
+   while a request is inside executor.express()/assessor.express() another
+   thread - or the agent itself, re-entrantly - may call any method of the
+   same loop object.  A call of run() therefore falls into two halves,
+   [enter] (lines 198-220: breaker, cache look-up) and [leave] (lines 229-275:
+   exception handling, gate, breaker bookkeeping, cache store - at the clock
+   value of THAT moment), and an overlapping history [xop] may put any
+   operations between the two halves of any number of requests in flight.
+   Between the two express() calls the loop reads and writes nothing of its
+   own state, so where exactly a request is suspended (in the executor or in
+   the assessor) is not part of the model's input. *)
 From Coq Require Import ZArith List Bool.
 From Verif Require Import Common.Corr.
 Import ListNotations.
@@ -389,6 +402,139 @@ Section Run.
 End Run.
 
 (* ---------------------------------------------------------------------- *)
+(* overlapping requests on one loop object                                  *)
+
+(* how the first half of run() ended *)
+Inductive entered :=
+| ERejected                (* line 211: the breaker turned the request away *)
+| EHit (res : core)        (* line 220: served from the cache *)
+| EMiss.                   (* line 227: the executor is being asked *)
+
+(* an operation of an overlapping history *)
+Inductive xop :=
+| XAtomic (o : op)             (* an operation carried out in one go (as in [op]) *)
+| XBegin (id : Z) (q : req)    (* run(q_prompt q) is called at clock [q_time q] and proceeds until it returns
+                                  at once (rejected / cache hit) or is inside an agent's express() *)
+| XEnd (id : Z) (now : Z).     (* the agents of the in-flight request [id] answer (what its [q_exec]/[q_assess]
+                                  say) and its run() returns, the clock standing at [now] *)
+
+(* what the harness sees of one [xop] *)
+Inductive xev :=
+| EvAtomic (e : bev)
+| EvReturned (id : Z) (q : req) (rp : reply) (adm : bool)   (* a begin that returned at once *)
+| EvInFlight (id : Z) (q : req) (n : nat)                   (* suspended in an agent; len(_cache) *)
+| EvCompleted (id : Z) (q : req) (now : Z) (rp : reply)     (* the in-flight request returned *)
+| EvNoSuch (id : Z) (n : nat).                              (* no request [id] is in flight *)
+
+Definition pending := list (Z * req).
+
+Fixpoint pending_find (id : Z) (l : pending) : option req :=
+  match l with
+  | [] => None
+  | (i, q) :: r => if Z.eqb i id then Some q else pending_find id r
+  end.
+
+Fixpoint pending_remove (id : Z) (l : pending) : pending :=
+  match l with
+  | [] => []
+  | (i, q) :: r => if Z.eqb i id then r else (i, q) :: pending_remove id r
+  end.
+
+(* one loop object: cache, breaker, the requests in flight *)
+Definition xstate := (lstate * pending)%type.
+
+Section Overlap.
+  Variable H : str -> str.
+  Variable K : str -> str.
+
+  (* loops.py 198-220 at clock [now]: breaker, then cache *)
+  Definition enter (cf : config) (bc : bconfig) (s : lstate) (p : str) (now : Z) : lstate * entered :=
+    let '(c, b) := s in
+    let '(ok, b1) := if bc_enabled bc then check_circuit bc now b else (true, b) in
+    if ok then
+      let '(hit, c1) := if cf_cache cf then check_cache cf now (K p) c else (None, c) in
+      match hit with
+      | Some res => ((c1, b1), EHit res)
+      | None => ((c1, b1), EMiss)
+      end
+    else ((c, b1), ERejected).
+
+  (* loops.py 229-275 at clock [now]: everything is computed from the request's OWN prompt and
+     the answers of the agents to THIS request (local variables of run()) *)
+  Definition leave (cf : config) (bc : bconfig) (s : lstate) (q : req) (now : Z) : lstate * reply :=
+    let '(c, b) := s in
+    let res := outcome H cf q in
+    let exn := raised (q_exec q) || raised (q_assess q) in
+    let c2 := if cf_cache cf && negb exn
+              then evict (cf_cap cf) (set_entry (K (q_prompt q)) (res, now) c) else c in
+    ((c2, record_outcome bc now (cf_logic cf) (q_exec q) (q_assess q) b),
+     mkReply res false true (negb (raised (q_exec q))) (Some (q_prompt q)) (length c2)).
+
+  Definition hit_reply (res : core) (n : nat) : reply := mkReply res true false false None n.
+
+  Definition xstep (cf : config) (bc : bconfig) (x : xstate) (o : xop) : xstate * xev :=
+    let '(s, pend) := x in
+    match o with
+    | XAtomic a => let '(s', e) := bstep_op H K cf bc s a in ((s', pend), EvAtomic e)
+    | XBegin id q =>
+        let '(s1, r) := enter cf bc s (q_prompt q) (q_time q) in
+        match r with
+        | ERejected => ((s1, pend), EvReturned id q (rejected_reply (length (fst s1))) false)
+        | EHit res => ((s1, pend), EvReturned id q (hit_reply res (length (fst s1))) true)
+        | EMiss => ((s1, (id, q) :: pend), EvInFlight id q (length (fst s1)))
+        end
+    | XEnd id now =>
+        match pending_find id pend with
+        | Some q => let '(s2, rp) := leave cf bc s q now in
+                    ((s2, pending_remove id pend), EvCompleted id q now rp)
+        | None => (x, EvNoSuch id (length (fst s)))
+        end
+    end.
+
+  Fixpoint xtrace_from (cf : config) (bc : bconfig) (x : xstate) (ops : list xop) : list xev :=
+    match ops with
+    | [] => []
+    | o :: rest => let '(x', e) := xstep cf bc x o in e :: xtrace_from cf bc x' rest
+    end.
+
+  Definition x0 : xstate := (([], brk0), []).
+
+  Definition xtrace (cf : config) (bc : bconfig) (ops : list xop) : list xev := xtrace_from cf bc x0 ops.
+
+  (* two loop objects, one interleaved overlapping history *)
+  Fixpoint xsys_from (cf0 cf1 : config) (bc0 bc1 : bconfig) (a0 a1 : xstate)
+           (tops : list (bool * xop)) : list (bool * xev) :=
+    match tops with
+    | [] => []
+    | (b, o) :: rest =>
+        if b then let '(a1', e) := xstep cf1 bc1 a1 o in (b, e) :: xsys_from cf0 cf1 bc0 bc1 a0 a1' rest
+        else let '(a0', e) := xstep cf0 bc0 a0 o in (b, e) :: xsys_from cf0 cf1 bc0 bc1 a0' a1 rest
+    end.
+
+  Definition xsys_trace (cf0 cf1 : config) (bc0 bc1 : bconfig) (tops : list (bool * xop)) : list (bool * xev) :=
+    xsys_from cf0 cf1 bc0 bc1 x0 x0 tops.
+End Overlap.
+
+(* the request/reply pair of an event, if it carries a reply *)
+Definition xreply (e : xev) : option (req * reply) :=
+  match e with
+  | EvAtomic ((OReq q, Some rp, _), _) => Some (q, rp)
+  | EvReturned _ q rp _ => Some (q, rp)
+  | EvCompleted _ q _ rp => Some (q, rp)
+  | _ => None
+  end.
+
+(* the clock value at which the reply of an event was produced (and, if it is an uncached one
+   that is stored, stamped) *)
+Definition xdone_at (e : xev) : option Z :=
+  match e with
+  | EvAtomic ((OReq q, Some _, _), _) => Some (q_time q)
+  | EvReturned _ q _ _ => Some (q_time q)
+  | EvCompleted _ _ now _ => Some now
+  | _ => None
+  end.
+
+(* ---------------------------------------------------------------------- *)
 (* codes shared with the harness                                            *)
 
 Definition action_code (a : action) : Z :=
@@ -439,14 +585,19 @@ Definition covers (t : list (Z * Z * Z * list Z)) : bool :=
    injective function would do: the harness checks on every case that the
    real md5[:16]/sha256[:16] are injective on the prompts of the case and
    observes only WHETHER the token hash is the hash of the request). *)
-Inductive cop := CReq (p : str) (t : Z) (z y : verdict) | CClear | CObserve | CReset.
+Inductive cop :=
+| CReq (p : str) (t : Z) (z y : verdict) | CClear | CObserve | CReset
+| CBegin (id : Z) (p : str) (t : Z) (z y : verdict)     (* run(p) starts at clock t ... *)
+| CEnd (id : Z) (t : Z).                                (* ... and, if it went to the agents, returns at clock t *)
 
-Definition op_of (o : cop) : op :=
+Definition xop_of (o : cop) : xop :=
   match o with
-  | CReq p t z y => OReq (mkReq p t z y)
-  | CClear => OClear
-  | CObserve => OObserve
-  | CReset => OReset
+  | CReq p t z y => XAtomic (OReq (mkReq p t z y))
+  | CClear => XAtomic OClear
+  | CObserve => XAtomic OObserve
+  | CReset => XAtomic OReset
+  | CBegin id p t z y => XBegin id (mkReq p t z y)
+  | CEnd id t => XEnd id t
   end.
 
 (* configuration of one loop object: gate logic, assessor name, enable_cache, ttl,
@@ -474,6 +625,18 @@ Definition ev_obs (cf0 cf1 : config) (x : bool * bev) : list Z :=
   | _, _ => [Z.of_nat n]
   end.
 
+(* a begin that is now in flight: [-3; cache size]; an end without a request in flight:
+   [-2; cache size]; every reply: the eleven values *)
+Definition xev_obs (cf0 cf1 : config) (x : bool * xev) : list Z :=
+  let '(b, e) := x in
+  match e with
+  | EvAtomic a => ev_obs cf0 cf1 (b, a)
+  | EvReturned _ q rp _ => reply_obs (if b then cf1 else cf0) q rp
+  | EvInFlight _ _ n => [-3; Z.of_nat n]
+  | EvCompleted _ q _ rp => reply_obs (if b then cf1 else cf0) q rp
+  | EvNoSuch _ n => [-2; Z.of_nat n]
+  end.
+
 Definition config_of (l : lcfg) (cap : nat) : config :=
   let '(lg, nm, en, ttl, _, _, _) := l in mkConfig lg nm en ttl cap.
 
@@ -484,6 +647,6 @@ Definition run_case (c : case) : list (list Z) :=
   let '(l0, l1, cap, tops) := c in
   let cf0 := config_of l0 cap in
   let cf1 := config_of l1 cap in
-  map (ev_obs cf0 cf1)
-      (sys_trace (fun p => p) (fun p => p) cf0 cf1 (bconfig_of l0) (bconfig_of l1)
-                 (map (fun x : bool * cop => (fst x, op_of (snd x))) tops)).
+  map (xev_obs cf0 cf1)
+      (xsys_trace (fun p => p) (fun p => p) cf0 cf1 (bconfig_of l0) (bconfig_of l1)
+                  (map (fun x : bool * cop => (fst x, xop_of (snd x))) tops)).
